@@ -55,7 +55,8 @@ def run(ctx):
     parts = []
 
     # 1. sequential correspondence: guardiansets + processor (real Push / verifyVAA / Deduplicator / GuardianSets)
-    rc, out = ctx.go_test("explorer-backend", "./guardiansets", "^TestVerif(Gs|Push)$", ov, extra=("./processor",))
+    rc, out = ctx.go_test("explorer-backend", "./guardiansets", "^TestVerif(Gs|Push)$", ov, extra=("./processor",),
+                         timeout=240 if ctx.tier == "quick" else 1500)
     for name in ("explorer_gs.cases", "explorer_push.cases"):
         p = os.path.join(ctx.work, name)
         if rc != 0 or not os.path.exists(p):
@@ -64,7 +65,7 @@ def run(ctx):
         parts.append(p)
 
     # 2. the atomicity assumption of the coarse model: concurrent lookups during appends, under the race detector
-    rc, out = ctx.go_test("explorer-backend", "./guardiansets", "^TestVerifGsRace$", ov, race=True)
+    rc, out = ctx.go_test("explorer-backend", "./guardiansets", "^TestVerifGsRace$", ov, race=True, timeout=240 if ctx.tier == "quick" else 1500)
     races = parse_races(out)
     in_code = [r for r in races if "guardiansets.(*GuardianSets)" in r[1] and "guardiansets.(*GuardianSets)" in r[3]]
     other = [r for r in races if r not in in_code]
